@@ -54,7 +54,9 @@ var dayCounter int64
 // NextDayBase returns a block of four days that no earlier run of this process has touched.
 func NextDayBase() int64 {
 	dayCounter++
-	return (dayCounter % 500000) * 4
+	// (nanosecond timestamps fit an int64 up to the year 2262: 20 000 blocks of four days end in 2219; a process that
+	// makes more runs than that starts over)
+	return (dayCounter % 20000) * 4
 }
 
 func genC14(rt *rapid.T) C14Scenario {
